@@ -99,6 +99,12 @@ MUTANTS = [
     ("stale-index-in-retain", "C06", "R-STALE-INDEX", "list::retain", "crates/runtime/src/core_lib/list.rs",
      "                        let Some(value) = l.data().get(read_index).cloned() else {\n                            break;\n                        };",
      "                        let value = l.data()[read_index].clone();"),
+    ("func-skip-unused-literal-inline", "C05", "R-FUNC-SKIP", "compile_function", "crates/bytecode/src/compiler.rs",
+     "            // The function is unused, so its body needs to be jumped over\n            self.push_op(Jump, &[]);\n            Some(self.push_offset_placeholder())",
+     "            None"),
+    ("frame-return-decided-by-state", "C05", "R-FRAME-RETURN", "compile_frame", "crates/bytecode/src/compiler.rs",
+     "            if !last_expression_is_return {",
+     "            if !(last_expression_is_return && self.span_stack.len() > 1) {"),
     # ---- R-BUILDER-BAL
     ("builder-string-finish-conditional", "C05", "R-BUILDER-BAL", "compile_string", "crates/bytecode/src/compiler.rs",
      "                        if let Some(result_register) = result.register {\n                            self.push_op(Op::StringFinish, &[result_register]);\n                        }",
